@@ -200,18 +200,17 @@ theorem dyn_no_panic (cfg : Cfg) (hgap : cfg.gap = 0) (hs : List Nat) (hlen : hs
   obtain ⟨s, he, hi⟩ := run_inv3 genFacts (by rw [dyn_repairs_present]) cfg hgap hs hlen ops init (init_inv3 hs) ho
   exact ⟨s, he, hi.top_ok, hi.cur_ok⟩
 
-/-- The full visibility statement: after ANY history (from the initial state, gap ≥ 0, a fixed
-    builder) that leaves no pending scroll, a selection change to an existing item of height ≥ 1
+/-- The full visibility statement (any gap ≥ 0): after ANY history from the initial state with a
+    fixed builder that leaves no pending scroll, a selection change to an existing item of height ≥ 1
     followed by a `Draw` into a viewport of height ≥ 1 shows the selected item: its rows intersect
-    the viewport, and it is fully inside when it fits.  NOT proved: it needs the invariant
-    `Settled` to be preserved by every reachable `Draw` (true on everything the harness explored —
-    the oracle evaluates exactly this statement on the real code — but the proof over
-    `insertChildren`/`retop` for all histories is open).  Proved: `dyn_cursor_visible_partial`. -/
+    the viewport, and it is fully inside when it fits.  It is proved for gap = 0
+    (`dyn_cursor_visible`); for gap > 0 it is FALSE of the code (finding F119e, replayed from
+    corpus/C19/F119e-gap-row0.ops: row 0 can fall into a gap, then no child re-anchors top/offset). -/
 def dyn_cursor_visible_full : Prop :=
   ∀ (cfg : Cfg) (hs : List Nat) (ops : List Op) (s : St) (c W H hc : Nat),
-    0 ≤ cfg.gap → W ≠ 65535 → H ≠ 65535 → 1 ≤ H → (∀ op ∈ ops, OpOk op) →
+    0 ≤ cfg.gap → hs.length < 2 ^ 63 → W ≠ 65535 → H ≠ 65535 → 1 ≤ H → (∀ op ∈ ops, OpOk1 op) →
     run genFacts cfg hs init ops = .ok s → s.pending = 0 →
-    hs[c]? = some hc → 1 ≤ hc → c < 2 ^ 63 →
+    hs[c]? = some hc → 1 ≤ hc →
     ∃ s' cs, draw genFacts cfg hs (setCursor s c) W H = .ok (s', cs) ∧
       ∃ ch ∈ cs, ch.idx = c ∧ ch.height = hc ∧ Visible H ch
 
@@ -268,6 +267,60 @@ theorem dyn_next_prev_visible_partial (cfg : Cfg) (hs : List Nat) (s : St) (W H 
         rw [hb] at h
         have e : s1 = ensureScroll { s with cursor := s.cursor - 1 } := (Prod.mk.inj h).1.symm
         exact key _ hc hb e (by rw [e]; exact cur_es _)
+
+/-- **Selected item visible — all histories, gap 0.**  For every fixed builder (any heights), gap 0,
+    with or without the cursor gutter, and every history of SetCursor/NextItem/PrevItem/wheel/
+    SetPendingScroll/Draw from the initial state (cursors below 2^63, draw contexts bounded and at
+    least one row high) that leaves no pending scroll: `SetCursor(c)` to an existing item of height
+    ≥ 1 followed by `Draw` into a viewport of height ≥ 1 does not panic and returns a child for item
+    `c` whose rows intersect the viewport and which is fully inside the viewport when it fits.
+    (Proof: `Inv4` — top index valid, wants-cursor implies top ≤ cursor, `0 ≤ offset < height(top)` —
+    is an invariant of every operation; it needs both repairs F119 and F119f.) -/
+theorem dyn_cursor_visible (cfg : Cfg) (hgap : cfg.gap = 0) (hs : List Nat) (hlen : hs.length < 2 ^ 63)
+    (ops : List Op) (ho : ∀ op ∈ ops, OpOk1 op) (s : St)
+    (hrun : run genFacts cfg hs init ops = .ok s) (hp : s.pending = 0)
+    (c W H hc : Nat) (hW : W ≠ 65535) (hH : H ≠ 65535) (hH1 : 1 ≤ H)
+    (hcur : hs[c]? = some hc) (hc1 : 1 ≤ hc) :
+    ∃ s' cs, draw genFacts cfg hs (setCursor s c) W H = .ok (s', cs) ∧
+      ∃ ch ∈ cs, ch.idx = c ∧ ch.height = hc ∧ Visible H ch := by
+  obtain ⟨s1, he, hi⟩ := run_inv4 genFacts (by rw [dyn_repairs_present]) (by rw [dyn_repairs_present])
+    cfg hgap hs hlen ops init (init_inv4 hs) ho
+  rw [hrun] at he; cases he
+  have hcn : c < hs.length := getElem?_lt hcur
+  exact dyn_cursor_visible_partial cfg hs s c W H hc (by rw [hgap]; exact Int.le_refl 0) hW hH hH1
+    (inv4_settled hs s hi hp (by omega)) hcur hc1 (by omega)
+
+/-- The same for `NextItem` / `PrevItem` after any history (gap 0, all heights ≥ 1). -/
+theorem dyn_next_prev_visible (cfg : Cfg) (hgap : cfg.gap = 0) (hs : List Nat) (hlen : hs.length < 2 ^ 63)
+    (hpos : ∀ h ∈ hs, 1 ≤ h)
+    (ops : List Op) (ho : ∀ op ∈ ops, OpOk1 op) (s : St)
+    (hrun : run genFacts cfg hs init ops = .ok s) (hp : s.pending = 0)
+    (W H : Nat) (hW : W ≠ 65535) (hH : H ≠ 65535) (hH1 : 1 ≤ H)
+    (s1 : St) (hmove : (nextItem hs s = (s1, true)) ∨ (prevItem hs s = (s1, true))) :
+    ∃ s' cs, draw genFacts cfg hs s1 W H = .ok (s', cs) ∧
+      ∃ ch ∈ cs, ch.idx = s1.cursor ∧ Visible H ch := by
+  obtain ⟨s0, he, hi⟩ := run_inv4 genFacts (by rw [dyn_repairs_present]) (by rw [dyn_repairs_present])
+    cfg hgap hs hlen ops init (init_inv4 hs) ho
+  rw [hrun] at he; cases he
+  have hn : 0 < hs.length := by
+    rcases hmove with h | h
+    · unfold nextItem at h
+      cases hb : builder hs (uadd s.cursor 1) with
+      | none => rw [hb] at h; cases h
+      | some x => have := getElem?_lt hb; omega
+    · unfold prevItem at h
+      split at h
+      · cases h
+      · cases hb : builder hs (usub s.cursor 1) with
+        | none => rw [hb] at h; cases h
+        | some x => have := getElem?_lt hb; omega
+  exact dyn_next_prev_visible_partial cfg hs s W H (by rw [hgap]; exact Int.le_refl 0) hW hH hH1
+    (inv4_settled hs s hi hp hn) hpos hlen hi.inv3.cur_ok s1 hmove
+
+/-- Non-vacuity of the history theorems: a concrete history ending with nothing pending. -/
+example : (match run ⟨true, true⟩ ⟨0, true⟩ [1, 1, 5, 2] init
+      [.setCursor 3, .draw 4 2, .pending (-2), .draw 4 5, .wheelDown, .draw 4 5, .next] with
+    | .ok s => s.pending == 0 | .error _ => false) = true := by decide
 
 /-- Non-vacuity: a settled state (top item 1 scrolled by one row), cursor moved to item 3. -/
 example : (match draw ⟨true, true⟩ ⟨0, false⟩ [2, 3, 1, 2] (setCursor ⟨1, 1, 1, 0, false⟩ 3) 4 3 with
